@@ -33,6 +33,27 @@ func Alive(id int64) bool {
 	return bytes.Contains(buf[:n], needle)
 }
 
+// WaitState returns the bracketed wait state of goroutine id ("" if it no longer exists).
+func WaitState(id int64) string {
+	buf := make([]byte, 1<<20)
+	n := runtime.Stack(buf, true)
+	needle := []byte("goroutine " + strconv.FormatInt(id, 10) + " [")
+	i := bytes.Index(buf[:n], needle)
+	if i < 0 {
+		return ""
+	}
+	rest := buf[i+len(needle) : n]
+	j := bytes.IndexByte(rest, ']')
+	if j < 0 {
+		return "?"
+	}
+	return string(rest[:j])
+}
+
+func lockWait(state string) bool {
+	return len(state) >= 5 && (state[:5] == "sync." || state[:5] == "semac")
+}
+
 var ErrInjected = errors.New("verif: injected storage error")
 
 type Proc struct {
@@ -167,37 +188,51 @@ func (c *Controller) Spawn(name string, gated bool, crashAt, errAt int, fn func(
 // Await waits until proc p is blocked at a call boundary or finished.
 // Returns the pending label ("" when done).
 func (c *Controller) Await(p *Proc, timeout time.Duration) (label string, done bool, err error) {
+	l, d, _, e := c.AwaitL(p, timeout)
+	return l, d, e
+}
+
+// AwaitL is Await that also recognises a proc waiting for a lock held by another proc
+// (which is itself waiting at a call boundary): locked = true, the proc is neither enabled
+// nor done and must be awaited again after other procs have moved.
+func (c *Controller) AwaitL(p *Proc, timeout time.Duration) (label string, done bool, locked bool, err error) {
 	deadline := time.Now().Add(timeout)
+	lockSeen := 0
 	for {
-		wait := 300 * time.Microsecond
-		if !p.Bg {
-			wait = timeout
-		}
-		t := time.NewTimer(wait)
+		t := time.NewTimer(400 * time.Microsecond)
 		select {
 		case l := <-p.arrived:
 			t.Stop()
-			return l, false, nil
+			return l, false, false, nil
 		case <-p.done:
 			t.Stop()
-			return "", true, nil
+			return "", true, false, nil
 		case <-t.C:
 		}
-		if p.Bg && !Alive(p.Gid) {
+		st := WaitState(p.Gid)
+		if st == "" && p.Bg {
 			// a background goroutine that returned: check once more for a late arrival
 			select {
 			case l := <-p.arrived:
-				return l, false, nil
+				return l, false, false, nil
 			default:
 			}
 			c.mu.Lock()
 			p.Done = true
 			delete(c.byGid, p.Gid)
 			c.mu.Unlock()
-			return "", true, nil
+			return "", true, false, nil
+		}
+		if lockWait(st) {
+			lockSeen++
+			if lockSeen >= 4 {
+				return "", false, true, nil
+			}
+		} else {
+			lockSeen = 0
 		}
 		if time.Now().After(deadline) {
-			return "", false, errors.New("sched: timeout waiting for proc " + p.Name)
+			return "", false, false, errors.New("sched: timeout waiting for proc " + p.Name + " (state " + st + ")")
 		}
 	}
 }
